@@ -206,6 +206,11 @@ func SetFuel(n int64) {
 	fuelOn = n > 0
 }
 
+// FuelOn reports whether a step budget is being counted down.
+//
+//go:norace
+func FuelOn() bool { return fuelOn }
+
 // Active reports whether a scheduled run is in progress.
 //
 //go:norace
